@@ -230,6 +230,7 @@ func c01(c *Ctx) {
 	r.Floor("C01 layout/sibling rows", n, 34)
 	hu := p.Func("rtp.(*Header).Unmarshal")
 	pu := p.Func("rtp.(*Packet).Unmarshal")
+	c.wrapScope = map[string]bool{"rtp.(*Header).Unmarshal": true, "rtp.(*Packet).Unmarshal": true}
 	boundsRun(c, []*ssa.Function{hu, pu}, headerContracts(c, false))
 }
 
@@ -275,6 +276,7 @@ func c03(c *Ctx) {
 	n += profileDispatch(c)
 	r.Floor("C03 rows", n, 45)
 	pu := p.Func("rtp.(*Packet).Unmarshal")
+	c.wrapScope = map[string]bool{"rtp.(*Header).Unmarshal": true, "rtp.(*Packet).Unmarshal": true}
 	boundsRun(c, []*ssa.Function{hu, pu}, headerContracts(c, true))
 }
 
@@ -332,6 +334,7 @@ func headerContracts(c *Ctx, withReservedStop bool) *bounds.Hooks {
 	}
 	// extensionEnd: the loop-invariant operand of the element loop's condition n < extensionEnd
 	var extEnd ssa.Value
+	var elemHead *ssa.BasicBlock
 	for _, b := range hu.Blocks {
 		if len(b.Instrs) == 0 || !inAnyLoop(b) {
 			continue
@@ -341,6 +344,7 @@ func headerContracts(c *Ctx, withReservedStop bool) *bounds.Hooks {
 				if _, isPhi := cmp.X.(*ssa.Phi); isPhi {
 					if add, isAdd := cmp.Y.(*ssa.BinOp); isAdd && add.Op == token.ADD {
 						extEnd = cmp.Y
+						elemHead = b
 					}
 				}
 			}
@@ -372,11 +376,54 @@ func headerContracts(c *Ctx, withReservedStop bool) *bounds.Hooks {
 			}
 		}
 	}
+	// the value-length variable of the element being parsed (a phi joining the two header forms)
+	var payloadLen ssa.Value
+	for _, b := range hu.Blocks {
+		for _, in := range b.Instrs {
+			if ph, ok := in.(*ssa.Phi); ok && ph.Comment == "payloadLen" && inAnyLoop(b) {
+				isHead := false
+				for _, pr := range b.Preds {
+					if b.Dominates(pr) {
+						isHead = true
+					}
+				}
+				if !isHead {
+					payloadLen = ph
+				}
+			}
+		}
+	}
 	return &bounds.Hooks{AtReturn: func(h *bounds.Helper, fn *ssa.Function, ret *ssa.Return, d *bounds.Disjunct) {
 		if fn != hu || len(ret.Results) != 2 {
 			return
 		}
 		if !d.ErrIsNil(ret.Results[1]) {
+			// ext-containment: inside the element loop an error is justified only when the element
+			// does not fit in the extension block. RFC 8285: a two-byte element needs its two header
+			// bytes and L value bytes, a one-byte element one header byte and L bytes; the cursor n
+			// reported with the error has consumed the header bytes read so far.
+			fromLoop := false
+			for _, g := range core.DominatingGuards(ret.Block()) {
+				// the guard sits in the element loop: its block is reachable from the loop head and
+				// reaches it again
+				if elemHead != nil && elemHead.Dominates(g.At) && core.Reachable(g.At)[elemHead] {
+					fromLoop = true
+				}
+			}
+			if fromLoop && d.Has(extEnd) {
+				n, e := d.Int(ret.Results[0]), d.Int(extEnd)
+				var fits lin.Ineq
+				what := "one more header byte"
+				if payloadLen != nil && d.Has(payloadLen) {
+					fits = lin.LE(n.Add(d.Int(payloadLen)), e)
+					what = "the value bytes"
+				} else {
+					fits = lin.LE(n.AddConst(1), e)
+				}
+				ok := !d.Satisfiable(fits)
+				h.Oblige("ext-containment: an element that fits in the extension block is not rejected", ok,
+					"this error return is reachable although "+what+" still fit(s) before the end of the extension block: a well-formed block ending exactly there is rejected")
+			}
 			return
 		}
 		arm := "no extension"
